@@ -135,6 +135,15 @@ def norm_arith(txt):
     txt = _rewrite_nodes(txt, "Shr", shr)
     txt = _rewrite_nodes(txt, "Shl", shl)
     txt = _rewrite_nodes(txt, "BitAnd", band)
+    # operand order is form: the operands of a commutative operator are sorted, `a > b` is `b < a`, `a >= b` is `b <= a`
+    txt = _rewrite_nodes(txt, "Gt", lambda a: "Lt(%s,%s)" % (a[1], a[0]) if len(a) == 2 else None)
+    txt = _rewrite_nodes(txt, "Ge", lambda a: "Le(%s,%s)" % (a[1], a[0]) if len(a) == 2 else None)
+    for _ in range(5):
+        before = txt
+        for op in ("BitOr", "BitAnd", "BitXor", "Mul", "Eq", "Ne"):
+            txt = _rewrite_nodes(txt, op, lambda a, op=op: "%s(%s)" % (op, ",".join(sorted(a))) if len(a) == 2 else None)
+        if txt == before:
+            break
     return txt
 
 
@@ -366,22 +375,6 @@ def check(ctx, prog, scope, floor=1, what="branch-free bodies in scope"):
 
 
 _INT_CMP = re.compile(r"^STORE local:v0 = core::cmp::impls::<impl core::cmp::Ord for (?:u8|u16|u32|u64|u128|usize|i8|i16|i32|i64|i128|isize)>::cmp\((.*)\)$")
-
-
-def _split_top(txt):
-    out, depth, cur = [], 0, ""
-    for ch in txt:
-        if ch in "([{<":
-            depth += 1
-        elif ch in ")]}>":
-            depth -= 1
-        if ch == "," and depth == 0:
-            out.append(cur)
-            cur = ""
-        else:
-            cur += ch
-    out.append(cur)
-    return out
 
 
 def _three_way(prog, f, want):
